@@ -80,6 +80,8 @@ def main(argv):
             d = os.path.dirname(meta_path)
             meta = json.load(open(meta_path))
             ids = [meta["property"]] + list(meta.get("also", []))
+            if meta.get("status") == "superseded":
+                continue  # a later fix: rewrote the code the change touched (see the entry's note)
             if len(argv) > 1 and os.path.basename(d) not in argv[1:]:
                 continue
             prepare(os.path.join(d, "patch.diff"))
